@@ -191,6 +191,16 @@ def mk_request(rid, s, t, ttype, mode, spacing, nch, power, bw, slots, bidir, in
 
 NEAR_TWIN_DIMS = ['source', 'destination', 'bidirectional', 'trx_type', 'trx_mode', 'include-node', 'hop-type',
                   'spacing', 'output-power', 'max-nb-of-channel', 'tx_power']
+# differences of the request document that harmonisation of the route list removes: such requests ARE identical
+SAME_AFTER_HARMONISATION = ['own-destination', 'own-source', 'own-ends', 'unknown-loose-hop']
+
+
+def get_include(r):
+    try:
+        hops = sorted(r['explicit-route-objects']['route-object-include-exclude'], key=lambda h: h['index'])
+    except KeyError:
+        return []
+    return [(h['num-unnum-hop']['node-id'], h['num-unnum-hop']['hop-type']) for h in hops]
 
 
 def set_include(r, inc):
@@ -239,6 +249,19 @@ def near_twin(rng, dim, r0, r, names, modes):
         te['max-nb-of-channel'] = 9 if te0['max-nb-of-channel'] != 9 else 10
     elif dim == 'tx_power':
         te['tx_power'] = 1.1e-3 if te0.get('tx_power') != 1.1e-3 else 0.9e-3
+    elif dim in SAME_AFTER_HARMONISATION:
+        # the same demand written differently: its own end transceivers at the ends of the include list, a node that
+        # does not exist as LOOSE hop
+        inc = get_include(r0)
+        ht = rng.choice(['STRICT', 'LOOSE'])
+        if dim in ('own-source', 'own-ends'):
+            inc = [(r0['source'], ht)] + inc
+        if dim in ('own-destination', 'own-ends'):
+            inc = inc + [(r0['destination'], ht)]
+        if dim == 'unknown-loose-hop':
+            k = rng.randint(0, len(inc))
+            inc = inc[:k] + [(rng.choice(['roadm Nowhere', 'no such node', 'fiber ZZ_9']), 'LOOSE')] + inc[k:]
+        set_include(r, inc)
 
 
 def gen_batch(rng, topo, k):
@@ -257,7 +280,7 @@ def gen_batch(rng, topo, k):
             te = r['path-constraints']['te-bandwidth']
             if rng.random() < 0.5:
                 te['path_bandwidth'] = rng.choice([100e9, 200e9, 150e9, 400e9])
-            dim = rng.choice(NEAR_TWIN_DIMS + ['twin'] * 4)
+            dim = rng.choice(NEAR_TWIN_DIMS + ['twin'] * 3 + SAME_AFTER_HARMONISATION)
             near_twin(rng, dim, r0, r, names, modes)
             reqs.append(r)
             continue
@@ -347,6 +370,13 @@ def rq_snapshot(r):
     return d
 
 
+def agg_on_ref(ag, ref):
+    """the aggregation result of planning(), to be compared with the model run on the harmonised requests"""
+    if ag is None or ref is None:
+        return ag
+    return dict(ag, **{'in': ref['in'], 'din': ref['din'], 'in_seen': ag['in']})
+
+
 def drive(case):
     """planning + response + CSV on the real code; everything observed at the stage boundaries"""
     import gnpy.tools.worker_utils as wu
@@ -357,6 +387,17 @@ def drive(case):
     eq = equipment(k)
     net = build(case['topo'], k)
     rec = {'agg': None, 'cpwd': None, 'assigned': None, 'modes': {}, 'props': []}
+    # the requests as the property speaks of them: loaded and with their route lists harmonised (own end transceivers
+    # and unusable LOOSE hops dropped), and the de-duplicated synchronisation groups -- computed here from the service
+    # document, whatever order planning() runs its steps in
+    ref = None
+    try:
+        from gnpy.tools.json_io import requests_from_json, disjunctions_from_json
+        ref_rqs = rqm.correct_json_route_list(net, requests_from_json(copy.deepcopy(case['services']), eq))
+        ref_dsj = rqm.deduplicate_disjunctions(disjunctions_from_json(copy.deepcopy(case['services'])))
+        ref = {'in': [rq_snapshot(r) for r in ref_rqs], 'din': [list(d.disjunctions_req) for d in ref_dsj]}
+    except Exception:
+        ref = None
     o_agg, o_cpwd, o_pas = wu.requests_aggregation, wu.compute_path_with_disjunction, wu.pth_assign_spectrum
     o_prop, o_opt = rqm.propagate, rqm.propagate_and_optimize_mode
 
@@ -397,7 +438,7 @@ def drive(case):
         try:
             _, ppaths, rppaths, rqs, dsjn, result = wu.planning(net, eq, copy.deepcopy(case['services']))
         except Exception as e:      # the batch is refused (ServiceError, DisjunctionError ...): nothing is reported
-            return {'exception': f'{type(e).__name__}: {e}'[:300], 'agg': rec['agg']}
+            return {'exception': f'{type(e).__name__}: {e}'[:300], 'agg': agg_on_ref(rec['agg'], ref)}
     finally:
         wu.requests_aggregation, wu.compute_path_with_disjunction, wu.pth_assign_spectrum = o_agg, o_cpwd, o_pas
         rqm.propagate, rqm.propagate_and_optimize_mode = o_prop, o_opt
@@ -438,7 +479,7 @@ def drive(case):
         if doc['response'] != responses:
             resp_exc = ['results_to_json differs from ResultElement.json'] * len(responses)
     return {'obs': obs, 'responses': responses, 'resp_exc': resp_exc, 'csv': csv_rows, 'csv_exc': csv_exc,
-            'agg': rec['agg'], 'modes': rec['modes'], 'props': rec['props'],
+            'agg': agg_on_ref(rec['agg'], ref), 'ref': ref, 'modes': rec['modes'], 'props': rec['props'],
             'objects': (rqs, fwd_paths, rev_paths, eq)}
 
 
@@ -993,19 +1034,28 @@ def pdbm_of(resp):
 
 
 # ------------------------------------------------------------------ batch-level oracle (Python, on observations)
-def te_view(r):
-    """everything of a request but id, bandwidth and slots"""
-    r = copy.deepcopy(r)
-    r.pop('request-id')
-    te = r['path-constraints']['te-bandwidth']
-    te.pop('path_bandwidth', None)
-    te.pop('effective-freq-slot', None)
-    return r
-
-
 def batch_oracle(case, drv):
     fails = []
     reqs = {r['request-id']: r for r in case['services']['path-request']}
+    ref = {r['id']: r for r in drv['ref']['in']} if drv.get('ref') else None
+    if ref is not None:
+        # identical requests ARE aggregated: two fixed-mode requests whose harmonised forms agree on every compared
+        # field and that sit in no synchronisation group must be reported under one joined id
+        grouped = {x for d in drv['ref']['din'] for x in d}
+        where = {}
+        for r in drv['responses']:
+            if r is not None:
+                for part in r['response-id'].split(' | '):
+                    where[part] = r['response-id']
+        ids = [i for i in ref if i in where and i not in grouped and ref[i]['tsp_mode'] is not None]
+        for x in range(len(ids)):
+            for y in range(x + 1, len(ids)):
+                a, b = ids[x], ids[y]
+                if where[a] != where[b] and all(ref[a][f] == ref[b][f] for f in KEY_FIELDS):
+                    fails.append(('identical_not_aggregated',
+                                  f'requests {a} and {b} are identical once their route lists are harmonised (fixed '
+                                  f'mode {ref[a]["tsp_mode"]}, no synchronisation group) but are reported separately '
+                                  f'as {where[a]!r} and {where[b]!r}'))
     resp_ids = [r['response-id'] for r in drv['responses'] if r is not None]
     seen = {}
     for rid in resp_ids:
@@ -1023,21 +1073,13 @@ def batch_oracle(case, drv):
         members = o['id'].split(' | ')
         if any(m not in reqs for m in members):
             continue
-        if len(members) > 1:
-            views = [te_view(reqs[m]) for m in members]
-            if any(v != views[0] for v in views[1:]):
-                diff = set()
-                for v in views[1:]:
-                    if v.get('bidirectional') != views[0].get('bidirectional'):
-                        diff.add('bidirectional')
-                    v2, v0 = dict(v), dict(views[0])
-                    v2.pop('bidirectional')
-                    v0.pop('bidirectional')
-                    if v2 != v0:
-                        diff.add('other')
-                key = 'aggregated_differ_bidir' if diff == {'bidirectional'} else 'aggregated_not_identical'
+        if len(members) > 1 and ref is not None:
+            diff = [f for f in KEY_FIELDS if any(ref[m][f] != ref[members[0]][f] for m in members)]
+            if diff:
+                key = 'aggregated_differ_bidir' if diff == ['bidir'] else 'aggregated_not_identical'
                 fails.append((key, f'requests {members} are reported under one id but are not identical '
-                                   f'(differ in {sorted(diff)})'))
+                                   f'(their harmonised forms differ in {diff})'))
+        if len(members) > 1:
             tot = sum(reqs[m]['path-constraints']['te-bandwidth']['path_bandwidth'] for m in members)
             if not close(tot, o['bw']):
                 fails.append(('bandwidth_not_summed', f'{o["id"]}: {o["bw"]} != sum {tot}'))
